@@ -30,7 +30,7 @@ import cli
 import rebench.subprocess_with_timeout as swt
 import rebench.subprocess_kill as skill
 
-IMPORTS = ["Gen.GenFacts", "Model.Kill"]
+IMPORTS = ["Gen.GenFacts", "Model.Kill"]   # coq_eval imports List/ZArith itself
 
 TREE_SRC = r'''
 import os, subprocess, sys, time
@@ -299,7 +299,7 @@ def direct_interrupt_part(chk, exprs):
         shutil.rmtree(W, ignore_errors=True)
 
 
-def long_limit_part(chk):
+def long_limit_part(chk, exprs):
     """limits of ten minutes and more are waited for in slices (_join_with_keep_alive): with a clock that only advances
     when the code waits, the total waiting time is min(limit, run time of the process), never more, in slices of at most
     ten minutes, with a keep-alive message per completed slice"""
@@ -335,6 +335,9 @@ def long_limit_part(chk):
             if abs(waited - want) > 1e-6 or any(x > 600 + 1e-9 or x <= 0 for x in slices):
                 chk.violation("C16 a limit of ten minutes or more is waited for exactly (in slices of at most ten minutes)", case,
                               dict(waited=want), dict(waited=waited, slices=slices[:8]))
+            run_t = finishes if finishes is not None else 10 ** 9
+            exprs.append((case, "join_loop", [int(round(waited))] + [int(x) for x in slices],
+                          "(let r := join_loop 400 %s %s 0 in L (I (fst r) :: map I (snd r)))" % (core.coq_Z(limit), core.coq_Z(run_t))))
             chk.case(("long-limit", limit, finishes))
             chk.count("long_limit_cases")
     finally:
@@ -504,7 +507,7 @@ def run(chk):
     direct_part(chk, exprs)
     direct_interrupt_part(chk, exprs)
     sudo_kill_part(chk)
-    long_limit_part(chk)
+    long_limit_part(chk, exprs)
     sessions_part(chk)
     try:
         res = core.coq_eval(IMPORTS, [e[3] for e in exprs], chk.scratch, chunk=100)
@@ -514,7 +517,9 @@ def run(chk):
     if res is not None:
         nd = 0
         for (case, kind, obs, _), m in zip(exprs, res):
-            if kind.startswith("decide"):
+            if kind == "join_loop":
+                bad = list(m) != list(obs)
+            elif kind.startswith("decide"):
                 bad = (m in (0, 1)) != obs or (kind == "decide-interrupted" and m != 0)
             else:
                 bad = list(m) != list(obs)
